@@ -231,6 +231,10 @@ func (e *Engine) harnessCall(st *State, fn *ssa.Function, args []Value) (Value, 
 		return StringVal{Atom: ConstInt(int64(500000 + e.opaqueSeq)), Others: 1}, true
 	case "verifRegexMatch":
 		return e.uf("M", []*Term{e.strID(args[0].(StringVal)), e.strID(args[1].(StringVal))}, BoolSort), true
+	case "verifAnd":
+		return And(asTerm(args[0]), asTerm(args[1])), true
+	case "verifOr":
+		return Or(asTerm(args[0]), asTerm(args[1])), true
 	case "verifAssume":
 		e.checkOverflow(st, "before assumption")
 		c := asTerm(args[0])
